@@ -124,29 +124,35 @@ def slabInsert (es : Slab) (free : List Nat) (j : Job) : Nat × Slab × List Nat
   | k :: rest => (k, es.set k (some j), rest)
   | [] => (es.length, es ++ [some j], [])
 
+/-- `self[index].is_suspended()` -/
+def suspAt (es : Slab) (i : Nat) : Bool := ((gets es i).map (·.isSuspended)).getD false
+
+/-- the "reselect the current and previous job" tail of `insert`; returns (cur, prev) -/
+def reselectInsert (exCur exPrev : Option Bool) (newSusp : Bool) (index cur prev : Nat) : Nat × Nat :=
+  match exCur with
+  | none => (index, prev)
+  | some c =>
+    if c = false ∧ newSusp = true then
+      -- set_current_job(index).unwrap(): the new job is suspended, so the call succeeds
+      (if index ≠ cur then (index, cur) else (cur, prev))
+    else
+      match exPrev with
+      | none => (cur, index)
+      | some p => if p = false ∧ newSusp = true then (cur, index) else (cur, prev)
+
 /-- `JobList::insert` -/
 def JobList.insert (s : JobList) (job : Job) : Nat × JobList :=
-  let newSusp := job.isSuspended
-  let exCur : Option Bool := s.currentJob.map fun i => ((gets s.entries i).map (·.isSuspended)).getD false
-  let exPrev : Option Bool := s.previousJob.map fun i => ((gets s.entries i).map (·.isSuspended)).getD false
-  let (index, s1) : Nat × JobList :=
-    match lookup s.pids job.pid with
-    | none =>
-      let (k, es, fr) := slabInsert s.entries s.free job
-      (k, { s with entries := es, free := fr, pids := insertKV s.pids job.pid k })
-    | some k => (k, { s with entries := s.entries.set k (some job) })
-  let s2 : JobList :=
-    match exCur with
-    | none => { s1 with cur := index }
-    | some c =>
-      if c = false ∧ newSusp = true then
-        -- set_current_job(index).unwrap(): the new job is suspended, so the call succeeds
-        (if index ≠ s1.cur then { s1 with prev := s1.cur, cur := index } else s1)
-      else
-        match exPrev with
-        | none => { s1 with prev := index }
-        | some p => if p = false ∧ newSusp = true then { s1 with prev := index } else s1
-  (index, s2)
+  let exCur : Option Bool := s.currentJob.map (suspAt s.entries)
+  let exPrev : Option Bool := s.previousJob.map (suspAt s.entries)
+  match lookup s.pids job.pid with
+  | none =>
+    let r := slabInsert s.entries s.free job
+    let cp := reselectInsert exCur exPrev job.isSuspended r.1 s.cur s.prev
+    (r.1, { s with entries := r.2.1, free := r.2.2, pids := insertKV s.pids job.pid r.1,
+                   cur := cp.1, prev := cp.2 })
+  | some k =>
+    let cp := reselectInsert exCur exPrev job.isSuspended k s.cur s.prev
+    (k, { s with entries := s.entries.set k (some job), cur := cp.1, prev := cp.2 })
 
 /-- `JobList::remove` -/
 def JobList.remove (s : JobList) (i : Nat) : Option Job × JobList :=
@@ -161,9 +167,7 @@ def JobList.remove (s : JobList) (i : Nat) : Option Job × JobList :=
     let cur' := if becomes then s.prev else s.cur
     let prev' :=
       if becomes ∨ i = s.prev then
-        match anySuspendedButCurrent es cur' with
-        | some k => k
-        | none => (anyButCurrent es cur').getD 0
+        (anySuspendedButCurrent es cur').getD ((anyButCurrent es cur').getD 0)
       else s.prev
     (some job, { s with entries := es, free := fr, pids := pids, cur := cur', prev := prev' })
 
@@ -177,8 +181,7 @@ def extractLoop (pred : Nat → Job → Bool) (report : Bool) :
     match gets s.entries idx with
     | none => extractLoop pred report fuel (idx+1) (len+1) s acc
     | some j =>
-      let j' := if report then { j with changed := false } else j
-      let s1 := if report then { s with entries := s.entries.set idx (some j') } else s
+      let s1 := if report then { s with entries := s.entries.set idx (some { j with changed := false }) } else s
       if pred idx j then
         extractLoop pred report fuel (idx+1) len (s1.remove idx).2 (idx :: acc)
       else
@@ -186,6 +189,20 @@ def extractLoop (pred : Nat → Job → Bool) (report : Bool) :
 
 def JobList.removeIf (s : JobList) (pred : Nat → Job → Bool) (report : Bool) : List Nat × JobList :=
   extractLoop pred report (s.entries.length + 1) 0 s.len s []
+
+/-- the "reselect the current and previous job" tail of `update_status`; returns (cur, prev) -/
+def reselectUpdate (es : Slab) (was now : Bool) (index cur prev : Nat) : Nat × Nat :=
+  if was = false ∧ now = true then
+    (if index ≠ cur then (index, cur) else (cur, prev))
+  else if was = true ∧ now = false then
+    if prev ≠ cur ∧ (gets es prev).isSome then        -- `previous_job()` is `Some(prev)`
+      if index = cur ∧ suspAt es prev = true then
+        (prev, (anySuspendedButCurrent es prev).getD index)
+      else if index = prev then
+        (cur, (anySuspendedButCurrent es cur).getD index)
+      else (cur, prev)
+    else (cur, prev)
+  else (cur, prev)
 
 /-- `update_status` -/
 def JobList.updateStatus (s : JobList) (pid : Nat) (st : PState) : Option Nat × JobList :=
@@ -195,26 +212,12 @@ def JobList.updateStatus (s : JobList) (pid : Nat) (st : PState) : Option Nat ×
     match gets s.entries index with
     | none => (none, s)   -- `self.jobs[index]` would panic; unreachable under the invariant
     | some job =>
-      let was := job.isSuspended
       let job' : Job := { job with state := st,
                                    changed := job.changed || decide (job.expected ≠ some st),
                                    expected := none }
-      let s1 : JobList := { s with entries := s.entries.set index (some job') }
-      let now := job'.isSuspended
-      let s2 : JobList :=
-        if !was && now then
-          (if index ≠ s1.cur then { s1 with prev := s1.cur, cur := index } else s1)
-        else if was && !now then
-          match s1.previousJob with
-          | none => s1
-          | some pi =>
-            let becomes := index = s1.cur ∧ ((gets s1.entries pi).map (·.isSuspended)).getD false = true
-            let s3 : JobList := if becomes then { s1 with cur := pi } else s1
-            if becomes ∨ index = pi then
-              { s3 with prev := (anySuspendedButCurrent s3.entries s3.cur).getD index }
-            else s3
-        else s1
-      (some index, s2)
+      let es := s.entries.set index (some job')
+      let cp := reselectUpdate es job.isSuspended job'.isSuspended index s.cur s.prev
+      (some index, { s with entries := es, cur := cp.1, prev := cp.2 })
 
 /-- `disown_all` -/
 def JobList.disownAll (s : JobList) : JobList :=
